@@ -273,7 +273,8 @@ func c17Aggregates(tier string) fw.Result {
 	if tier == "thorough" {
 		maxN = 4
 	}
-	list := "count(*) AS n, count(v) AS c, sum(v) AS s, avg(v) AS a, min(v) AS mi, max(v) AS ma, stddev(v) AS sd, stddevs(v) AS sds, var(v) AS va, vars(v) AS vs, median(v) AS med, first_value(v) AS fv, last_value(v) AS lv, collect(v) AS col, deduplicate(v) AS dd, merge_agg(v) AS mg"
+	list := "count(*) AS n, count(v) AS c, sum(v) AS s, avg(v) AS a, min(v) AS mi, max(v) AS ma, stddev(v) AS sd, stddevs(v) AS sds, var(v) AS va, vars(v) AS vs, median(v) AS med, first_value(v) AS fv, last_value(v) AS lv, collect(v) AS col, deduplicate(v) AS dd, merge_agg(v) AS mg, count(t) AS ct"
+	textOf := func(x int) any { return []any{"on", "off", nil}[x%3] } // a text column next to the numeric one
 	run := func(n int, seqs [][]int) {
 		sql := fmt.Sprintf("SELECT k, %s FROM stream GROUP BY k, GLOBAL WINDOW TRIGGER WHEN count(*) >= %d", list, n)
 		var rows []Row
@@ -283,6 +284,9 @@ func c17Aggregates(tier string) fw.Result {
 				id++
 				row := Row{"k": "a", "id": id}
 				c03Alphabet[x].Set(row, "v")
+				if t := textOf(x); t != nil {
+					row["t"] = t
+				}
 				rows = append(rows, row)
 			}
 		}
@@ -322,6 +326,15 @@ func c17Aggregates(tier string) fw.Result {
 			if xs := ref.Usable(vals); len(xs) > 0 {
 				row["sd"] = ref.StdPop(xs) // stddev's definition is C03's subject (known finding there)
 			}
+			wantCT := 0
+			for _, x := range sq {
+				if textOf(x) != nil {
+					wantCT++
+				}
+			}
+			if ct, ok := num(out[i]["ct"]); !ok || int(ct) != wantCT {
+				a.fail(fmt.Sprintf("C17|aggregates|col=count-of-text|batch=%d", i+1), fmt.Sprintf("%s over %v: result %d has count(t) = %v, %d rows carry a text in t", sql, names, i+1, out[i]["ct"], wantCT), cs, wantCT, out[i])
+			}
 			for _, f := range c03CheckMainAll(row, vals, true) {
 				a.fail(fmt.Sprintf("C17|aggregates|col=%s|batch=%d", strings.SplitN(f[0], "=", 2)[0], i+1), fmt.Sprintf("%s over %v: result %d has %s", sql, names, i+1, f[1]), cs, nil, out[i])
 			}
@@ -334,6 +347,56 @@ func c17Aggregates(tier string) fw.Result {
 		sequences(n, len(c03Alphabet), func(s1 []int) {
 			s1 = append([]int(nil), s1...)
 			sequences(n, len(c03Alphabet), func(s2 []int) { run(n, [][]int{s1, append([]int(nil), s2...)}) })
+		})
+	}
+	// count(<text column>) in the predicate: fires at the second row that carries a text since the last fire
+	tsql := "SELECT k, count(t) AS ct, count(*) AS n FROM stream GROUP BY k, GLOBAL WINDOW TRIGGER WHEN count(t) >= 2"
+	for L := 1; L <= 5; L++ {
+		sequences(L, 3, func(sq []int) {
+			var rows []Row
+			var want []string
+			ct, n := 0, 0
+			for i, x := range sq {
+				row := Row{"k": "a", "id": i + 1}
+				if t := textOf(x); t != nil {
+					row["t"] = t
+					ct++
+				}
+				n++
+				if ct >= 2 {
+					want = append(want, fmt.Sprintf("ct=%d n=%d", ct, n))
+					ct, n = 0, 0
+				}
+				rows = append(rows, row)
+			}
+			r := detExec(tsql, detOpts{Eager: true, Horizon: 100 * vtime.Millisecond}, func(e *Env) {
+				for _, row := range rows {
+					e.Emit(copyVal(row).(map[string]any))
+				}
+			})
+			a.r.Evaluations++
+			a.r.States++
+			a.r.Transitions += int64(r.Steps)
+			if len(want) > 0 {
+				a.r.Nontrivial++
+			}
+			cs := map[string]any{"sql": tsql, "rows": rows}
+			if r.ExecErr != "" || r.Status != sched.StatusOK {
+				a.fail("C17|aggregates|exec", r.ExecErr+" "+r.Status.String()+" "+firstLine(r.Panic), cs, nil, nil)
+				return
+			}
+			var got []string
+			for _, b := range r.Batches {
+				for _, row := range b {
+					c, _ := num(row["ct"])
+					m, _ := num(row["n"])
+					got = append(got, fmt.Sprintf("ct=%d n=%d", int(c), int(m)))
+				}
+			}
+			a.outcome(strings.Join(got, ";"))
+			if strings.Join(got, ";") != strings.Join(want, ";") {
+				a.fail("C17|aggregates|count-of-text-in-predicate", fmt.Sprintf("%s over %s: fired %v, reference %v", tsql, js(rows), got, want), cs, want, got)
+			}
 		})
 	}
 	a.sample(map[string]any{"aggregates": list, "values": c03Names([]int{0, 1, 2, 3, 4, 5})})
